@@ -62,7 +62,7 @@
 (*      read `app_settings` afterwards; component_registry.py: "we always  *)
 (*      take the latest value from Django's settings".                     *)
 (*                                                                         *)
-(*  D14 django_components.get_component_dirs (docs/reference/api.md):        *)
+(*  D14 django_components.get_component_dirs (docs/reference/api.md):      *)
 (*      "get_component_dirs() searches for dirs set in COMPONENTS.dirs     *)
 (*      settings. If none set, defaults to searching for a "components"    *)
 (*      app. In addition to that, also all installed Django apps are       *)
@@ -88,6 +88,9 @@
 (*   - which of a deprecated / current name wins when both are given       *)
 (*   - whether an invalid global context_behavior is reported to a         *)
 (*     registry that has its own context_behavior                          *)
+(*   - get_component_dirs: the legacy fallback to STATICFILES_DIRS (code   *)
+(*     only), dirs entries that are neither a string, a Path nor a pair,   *)
+(*     the order of the answer (it is compared as a set)                   *)
 (***************************************************************************)
 EXTENDS Integers, Sequences, FiniteSets, SequencesExt
 
@@ -202,11 +205,6 @@ RegAdm(u, form, base, k, own, old) ==
 DynamicNames(u, form, base) == Adm(u, form, base, "dynamic_component_name")
 \* D11: TRUE -> "{{ x <newline> }}" is a variable tag; FALSE -> django.template.base.tag_re is left alone
 Multiline(u, form, base) == Adm(u, form, base, "multiline_tags")
-\* "Toggle whether to run autodiscovery at the Django server startup."
-Autodiscovers(u, form, base) == Adm(u, form, base, "autodiscover")
-\* reload_on_file_change: "If `True`, django_components configures Django to reload when files inside
-\* COMPONENTS.dirs or COMPONENTS.app_dirs change."  (a receiver of django.utils.autoreload.file_changed)
-WatchesFiles(u, form, base) == Adm(u, form, base, "reload_on_file_change")
 \* libraries: "Configure extra python modules that should be loaded. [...] This would be the equivalent of
 \* importing these modules from within Django's AppConfig.ready()"
 LibrariesLoaded(u, form, base) == Adm(u, form, base, "libraries")
@@ -240,6 +238,20 @@ ComponentDirs(u, form, base, fs, apps, inc) ==
   {DirsOne(d, ad, fs, apps, inc) : d \in Adm(u, form, base, "dirs"), ad \in Adm(u, form, base, "app_dirs")}
 \* a start-up that looks for component files may report a relative path
 DirsMayFail(u, form, base) == \E d \in Adm(u, form, base, "dirs") : HasRelative(d)
+
+\* autodiscover: "Toggle whether to run autodiscovery at the Django server startup" + autodiscover():
+\* "Search for all python files in COMPONENTS.dirs and COMPONENTS.app_dirs and import them."
+\* The harness keeps an importable python file in [app]/<d> of one installed app for every d of
+\* probeDirs (and none elsewhere): is one of them imported by the start-up?
+AutodiscoverImports(u, form, base, probeDirs) ==
+  {B(a.b /\ (ItemsOf(ad) \cap probeDirs # {})) :
+     a \in Adm(u, form, base, "autodiscover"), ad \in Adm(u, form, base, "app_dirs")}
+\* reload_on_file_change: "If `True`, django_components configures Django to reload when files inside
+\* COMPONENTS.dirs or COMPONENTS.app_dirs change."  After the start-up, Django's file_changed signal
+\* is sent for a file below the existing directory `target`: is a reload triggered?
+ReloadsOnChangeIn(u, form, base, fs, apps, target) ==
+  {B(w.b /\ r.t = "dirs" /\ target \in ItemsOf(r)) :
+     w \in Adm(u, form, base, "reload_on_file_change"), r \in ComponentDirs(u, form, base, fs, apps, TRUE)}
 
 \* Known deviation (classification only): entries of COMPONENTS.dirs are returned whether they
 \* exist or not (only the app-level directories are checked).
